@@ -224,6 +224,34 @@ fn c12_sched_body<const N: usize, const CALLS: usize, const S0: usize, const S1:
         Err(_) => (false, 0),
     };
     forget(sres);
+    // absolute reading of the header rule (not only agreement of the two paths): a first
+    // line starting with one of ) ] } ' is junk up to its \n or \r\n; a \r followed by any
+    // other byte is refused; the slice path hands on everything from the \n
+    let mut spec_ok = true;
+    let mut spec_start = 0usize;
+    if is_junk_json(data[0]) {
+        spec_start = N;
+        let mut i = 0;
+        let mut decided = false;
+        while i < N {
+            if !decided {
+                if data[i] == b'\n' {
+                    spec_start = i;
+                    decided = true;
+                } else if data[i] == b'\r' {
+                    if i + 1 < N && data[i + 1] != b'\n' {
+                        spec_ok = false;
+                        decided = true;
+                    }
+                }
+            }
+            i += 1;
+        }
+    }
+    assert!(s_ok == spec_ok, "C12/slice-rejects-exactly-bare-cr-headers");
+    if s_ok && spec_ok {
+        assert!(s_start == spec_start, "C12/slice-skips-exactly-the-junk-line");
+    }
     let mut rdr = StripHeaderReader::new(SchedReader { data: &data, pos: 0, sched: [S0, S1, S2, S3], next: 0 });
     let mut out = [0u8; N];
     let mut n_out = 0usize;
